@@ -63,6 +63,34 @@ def ref_visibility(x, t, horizontal):
     return A
 
 
+def ref_visibility_int(x, t, horizontal):
+    """The same criterion for integer values and times (None = missing),
+    evaluated pair by pair on int64 vectors: for series of several hundred
+    samples, where the Fraction loops above would take minutes."""
+    n = len(x)
+    miss = np.array([v is None for v in x])
+    xv = np.array([0 if v is None else int(v) for v in x], dtype=np.int64)
+    tv = np.array([int(v) for v in t], dtype=np.int64)
+    A = np.zeros((n, n), dtype=np.int8)
+    for i in range(n):
+        if miss[i]:
+            continue
+        for j in range(i + 1, n):
+            if miss[j]:
+                continue
+            if miss[i + 1:j].any():
+                break          # a missing sample blocks every longer link
+            xk, tk = xv[i + 1:j], tv[i + 1:j]
+            if horizontal:
+                ok = bool(np.all((xk < xv[i]) & (xk < xv[j])))
+            else:
+                ok = bool(np.all((xk - xv[i]) * (tv[j] - tv[i])
+                                 < (xv[j] - xv[i]) * (tk - tv[i])))
+            if ok:
+                A[i, j] = A[j, i] = 1
+    return A
+
+
 def _frac(v):
     return None if v is None else Fraction(v).limit_denominator(1 << 20)
 
@@ -112,7 +140,12 @@ def oracle_criterion(case, rec):
     rec.label("horizontal" if hor else "natural")
     rec.label("missing" if has_mv else "complete")
     rec.label("timings" if ts is not None else "default_timings")
-    ref = ref_visibility(fx, ft, hor)
+    if n > 60 and all(v is None or float(v) == int(v) for v in xs) and \
+            all(float(v) == int(v) for v in ft):
+        rec.label("long_series")
+        ref = ref_visibility_int(xs, ft, hor)
+    else:
+        ref = ref_visibility(fx, ft, hor)
     ok, vg = rec.call("construct", build, case)
     if not ok:
         return
@@ -185,7 +218,7 @@ def _dir_clustering(A, past):
         k = len(nb)
         if k < 2:
             continue
-        tri = sum(1 for a, b in itertools.combinations(nb, 2) if A[a, b])
+        tri = int(np.asarray(A)[np.ix_(nb, nb)].sum()) // 2
         out[i] = tri / (k * (k - 1) / 2.0)
     return out
 
@@ -300,6 +333,31 @@ def series(draw, max_len=40, allow_missing=True):
 
 
 @st.composite
+def long_cases(draw):
+    """130..320 samples with links spanning more than 127 steps: a high
+    sample in front of a concave arc, a deep valley, or plain noise."""
+    n = draw(st.integers(130, 320))
+    kind = draw(st.sampled_from(["arc", "arc", "valley", "noise"]))
+    h = draw(st.integers(1, 3))
+    mid = n // 2
+    if kind == "arc":
+        xs = [4 * n * n] + [h * (n * n - (k - mid) ** 2) // 4
+                            for k in range(1, n)]
+    elif kind == "valley":
+        xs = [h * (k - mid) ** 2 for k in range(n)]
+    else:
+        xs = draw(st.lists(st.integers(0, 255), min_size=n, max_size=n))
+    bumps = draw(st.lists(st.tuples(st.integers(0, n - 1),
+                                    st.integers(-3, 3)), max_size=12))
+    for k, d in bumps:
+        xs[k] += d
+    if draw(st.integers(0, 2)) == 0:
+        for k in draw(st.lists(st.integers(1, n - 2), max_size=3)):
+            xs[k] = None
+    return {"x": xs, "t": None, "horizontal": draw(st.integers(0, 3)) == 0}
+
+
+@st.composite
 def criterion_cases(draw):
     xs, ts = draw(series())
     return {"x": xs, "t": ts, "horizontal": draw(st.booleans())}
@@ -324,6 +382,8 @@ SUBCHECKS = [
              quick=(8, None), thorough=(8, None)),
     SubCheck("criterion_random", oracle_criterion, gen=criterion_cases,
              quick=(4, 400), thorough=(8, 12000)),
+    SubCheck("long_series", oracle_criterion, gen=long_cases,
+             quick=(4, 8), thorough=(8, 60)),
     SubCheck("relations", oracle_relations, gen=relation_cases,
              quick=(4, 250), thorough=(8, 6000)),
 ]
